@@ -3,7 +3,7 @@
     process-wide statics of the build; that each C function touches only what the disassembly scan attributes
     to it, and that the per-context state really is disjoint, is tied by the pthread/TSan harness, not proved. *)
 From Coq Require Import String List ZArith Bool.
-From ChibiV Require Import C13.Defs C13.Allowed C13.Model C13.Proofs C13.Inventory Gen.C13_Statics.
+From ChibiV Require Import C13.Defs C13.Allowed C13.Model C13.Proofs C13.Inventory Gen.C13_Statics C13.Res C13.ResProofs.
 Import ListNotations.
 
 (** generated obligation: every writable object of every shared object of the current build is on the reviewed
@@ -84,3 +84,52 @@ Theorem init_idempotent : forall (Ctx : Type) (cls : sid -> class) (initv : sid 
   weq Ctx (exec (exec w (init_step i inits)) (init_step j inits)) (exec w (init_step i inits)).
 Proof. exact Proofs.init_idempotent. Qed.
 Print Assumptions init_idempotent.
+
+(* ------------------------------------------------------------------ round 2 *)
+
+(** per shared object of the build: static-free (C runtime objects only) or fully classified *)
+Theorem every_library_static_free_or_classified : forall l, In l libs ->
+  (forall s, In s table -> s_lib s = l -> class_of allow_list s = Some Runtime) \/
+  (forall s, In s table -> s_lib s = l ->
+     exists a, lookup allow_list s = Some a /\ incl (s_writers s) (a_writers a) /\ incl (s_addr s) (a_addr a)).
+Proof. exact Inventory.library_static_free_or_classified. Qed.
+Print Assumptions every_library_static_free_or_classified.
+
+(** process-wide OS resources (streams / descriptors / dlopen references), model C13/Res.v: the invariant
+    (held => open, owned => private, imported => referenced, host streams open) holds after ANY sequence of
+    creations, opens, imports, uses and destroys *)
+Theorem resources_invariant : forall rel pi, RInv (rrun rel pi rw0).
+Proof. exact (fun rel pi => rrun_inv rel pi rw0 rinv0). Qed.
+Print Assumptions resources_invariant.
+
+Theorem live_context_can_write : forall rel pi i c k r,
+  rcx (rrun rel pi rw0) i = Some c -> nth_error (std c) k = Some r ->
+  snd (rstep rel (rrun rel pi rw0) (RWrite i k)) = true.
+Proof. exact ResProofs.live_context_can_write. Qed.
+Print Assumptions live_context_can_write.
+
+Theorem live_context_can_call : forall rel pi i c l,
+  rcx (rrun rel pi rw0) i = Some c -> In l (Res.libs c) ->
+  snd (rstep rel (rrun rel pi rw0) (RCall i l)) = true.
+Proof. exact ResProofs.live_context_can_call. Qed.
+Print Assumptions live_context_can_call.
+
+Theorem host_streams_stay_open : forall rel pi r, r < 3 -> ropen (rrun rel pi rw0) r = true.
+Proof. exact ResProofs.host_streams_stay_open. Qed.
+Print Assumptions host_streams_stay_open.
+
+(** destroy_is_local, strengthened to the process-wide resources: after any history, destroying j changes no
+    other context, closes no resource another context holds, drops no library reference of another context,
+    leaves the host's streams open; the only resources whose state changes are those j owned *)
+Theorem destroy_is_local_resources : forall rel pi j cj,
+  let w := rrun rel pi rw0 in
+  let w' := fst (rstep rel w (RDestroy j)) in
+  rcx w j = Some cj ->
+  rcx w' j = None /\
+  (forall i, i <> j -> rcx w' i = rcx w i) /\
+  (forall i r b, i <> j -> held w i r b -> ropen w' r = true) /\
+  (forall i l, i <> j -> In i (dlrefs w l) -> In i (dlrefs w' l)) /\
+  (forall r, r < 3 -> ropen w' r = true) /\
+  (forall r, ropen w' r <> ropen w r -> In (r, true) (holds cj)).
+Proof. exact ResProofs.destroy_is_local_resources. Qed.
+Print Assumptions destroy_is_local_resources.
